@@ -590,8 +590,71 @@ Definition verdict (S : symtab) (G : tenv) (e : expr) : nat :=
   if negb (calls_ok S e) then 1%nat
   else match infer false S G [] e with Some _ => 0%nat | None => 2%nat end.
 
-(** Side condition of the None-safety theorem, decidable per invariant: distinct
-    sub-expressions have distinct canonical representations (the keys of [_non_null]). *)
+(** Side condition of the None-safety theorem, decidable per invariant: the operand of a
+    None-test (the only source of keys of [_non_null]) shares its canonical representation
+    with no other sub-expression of the invariant. *)
 Definition keys_distinctb (e : expr) : bool :=
-  forallb (fun a => forallb (fun b => negb (text_eqb (canon a) (canon b)) || expr_eqb a b)
-                            (subs e)) (subs e).
+  forallb (fun a =>
+             match a with
+             | IsNone v | IsNotNone v =>
+                 forallb (fun b => negb (text_eqb (canon v) (canon b)) || expr_eqb v b) (subs e)
+             | _ => true
+             end) (subs e).
+
+(** ** Syntactic well-formedness (what the parser guarantees) and access paths.
+
+    Identifiers are Python identifiers other than [True]/[False]; [And]/[Or] have at least
+    two operands. An access path is [x], [x.a], [x.a.b], ... *)
+Definition idc (c : N) : bool :=
+  ((48 <=? c) && (c <=? 57))%N || ((65 <=? c) && (c <=? 90))%N
+  || ((97 <=? c) && (c <=? 122))%N || N.eqb c 95.
+
+Definition is_digit (c : N) : bool := ((48 <=? c) && (c <=? 57))%N.
+
+Definition wf_ident (x : text) : bool :=
+  match x with
+  | [] => false
+  | c :: _ => negb (is_digit c)
+  end && forallb idc x
+  && negb (text_eqb x (s2l "True")) && negb (text_eqb x (s2l "False")).
+
+Definition two_or_more {A} (l : list A) : bool :=
+  match l with _ :: _ :: _ => true | _ => false end.
+
+Fixpoint wf_expr (e : expr) : bool :=
+  match e with
+  | Name x => wf_ident x
+  | Constant _ => true
+  | Member i n => wf_expr i && wf_ident n
+  | Index a b | Comparison _ a b | IsIn a b | Implication a b | Add a b | Sub a b =>
+      wf_expr a && wf_expr b
+  | IsNone a | IsNotNone a | Not a => wf_expr a
+  | And vs | Or vs => two_or_more vs && forallb wf_expr vs
+  | FunctionCall f args => wf_ident f && forallb wf_expr args
+  | MethodCall i m args => wf_expr i && wf_ident m && forallb wf_expr args
+  | Any x g c | All x g c =>
+      wf_ident x
+      && match g with
+         | ForEach i => wf_expr i
+         | ForRange a b => wf_expr a && wf_expr b
+         end && wf_expr c
+  | JoinedStr ps =>
+      forallb (fun p => match p with JLit _ => true | JFmt a => wf_expr a end) ps
+  end.
+
+Fixpoint is_path (e : expr) : bool :=
+  match e with
+  | Name _ => true
+  | Member i _ => is_path i
+  | _ => false
+  end.
+
+(** Every None-test of the invariant is on an access path. *)
+Definition guard_ok (e : expr) : bool :=
+  match e with
+  | IsNone v | IsNotNone v => is_path v
+  | _ => true
+  end.
+
+Definition guards_on_paths (root : expr) : bool :=
+  forallb wf_expr (subs root) && forallb guard_ok (subs root).
